@@ -2,6 +2,7 @@ import Driver.Common
 import Driver.C06
 import MocVerif.Model.MocSet
 import MocVerif.Model.MocSetCrash
+import MocVerif.Model.MocSetFile
 
 namespace Drv
 open Moc
@@ -110,6 +111,55 @@ def stepCrash (toks : List String) : Option String :=
     else if point == "chgstatus.after_meta_store" || point == "purge.before_tmp_flush" ||
             point == "purge.after_tmp_flush" || point == "purge.after_rename" then some "consistent"
     else some "unknown-point"
+  | _ => none
+
+end Drv
+
+namespace Drv
+open Moc Moc.MsFile
+
+def trimZeros (l : List Nat) : List Nat := (l.reverse.dropWhile (· == 0)).reverse
+/-- FNV-1a, 64 bits (only to compare long byte strings compactly). -/
+def fnv (bs : List Nat) : Nat := bs.foldl (fun h b => ((h ^^^ b) * 1099511628211) % 2 ^ 64) 14695981039346656037
+def showFile (f : File) : String :=
+  s!"{f.n128};{showNats (trimZeros f.mwords)};{showNats (trimZeros f.index)};{f.data.length}:{fnv f.data}"
+
+/-- Replays a whole history on the FILE model (header words and data bytes). -/
+def msfRun (n128 : Nat) (cmds : List String) : Option (Option File) := do
+  let mut st : Option File := none
+  for c in cmds do
+    match c.splitOn ":" with
+    | ["mk", es] =>
+      let es ← parseEntries es
+      match fileMake n128 es with
+      | some f => st := some f
+      | none => pure ()
+    | ["ap", e] =>
+      let e ← parseEntry e
+      match st with
+      | some f => if e.id > idMask then pure () else st := some (fileAppend f e).1
+      | none => pure ()
+    | ["cs", ns, ids] =>
+      let ns ← ns.toNat?
+      let ids ← (ids.splitOn ",").mapM (·.toNat?)
+      match st with
+      | some f => if ns = 0 then pure () else st := some (fileChg f ns ids).1
+      | none => pure ()
+    | ["pg", n] =>
+      match st with
+      | some f => st := some (filePurge f (n.toNat?)).1
+      | none => pure ()
+    | _ => none
+  pure st
+
+def stepMocSetFile (toks : List String) : Option String :=
+  match toks with
+  | ["msf", n128, hist] => do
+    let n128 ← n128.toNat?
+    match msfRun n128 (hist.splitOn "|") with
+    | some (some f) => pure (showFile f)
+    | some none => pure "nofile"
+    | none => none
   | _ => none
 
 end Drv
